@@ -456,7 +456,9 @@ class SpectralDensity(DFunction, UnitsManaged):
         t2 = other.axis
         if t1 == t2:
                       
-            f = SpectralDensity(t1, params=self.params)
+            # stored parameters are in internal units
+            with energy_units("int"):
+                f = SpectralDensity(t1, params=self.params)
             f.add_to_data(other)
             
         else:
@@ -507,7 +509,9 @@ class SpectralDensity(DFunction, UnitsManaged):
         
         """
         if self == other:
-            ocor = SpectralDensity(other.axis, other.params)
+            # stored parameters are in internal units
+            with energy_units("int"):
+                ocor = SpectralDensity(other.axis, other.params)
         else:
             ocor = other
             
